@@ -282,6 +282,33 @@ Qed.
 (* r, m (perpendicular to r and to the axis, |m|^2 = 3/4 |r|^2): the regular
    hexagon with apothem vector r has its sides on the planes of normals
    r, s = r/2 + m, t = -r/2 + m through c + r, c + s, c + t *)
+Lemma comb_flat (c e1 e2 h : rvec) (x y : R) :
+  dot (vsub (vadd c (vadd (vscale x e1) (vscale y e2))) c) h = x * dot e1 h + y * dot e2 h.
+Proof.
+  destruct c as [[c1 c2] c3], e1 as [[a1 a2] a3], e2 as [[b1 b2] b3], h as [[h1 h2] h3].
+  unfold dot, vadd, vsub, vscale, vx, vy, vz; cbn. ring.
+Qed.
+
+(* all the scalar facts about the regular hexagon, in components *)
+Lemma regular_facts (c h r m : rvec) :
+  dot r h = 0 -> dot m h = 0 -> dot r m = 0 -> dot m m = 3 / 4 * dot r r ->
+  let s := vadd (vscale (1 / 2) r) m in
+  let t := vadd (vscale (- (1 / 2)) r) m in
+  let w := hexagon_of c (vscale (2 / 3) (vadd r s)) (vsub s r) 1 in
+  dot s s = dot r r /\ dot t t = dot r r /\ dot s h = 0 /\ dot t h = 0 /\
+  dot (vscale (2 / 3) (vadd r s)) h = 0 /\ dot (vsub s r) h = 0 /\
+  (dot (vsub (w 0%nat) (vadd c r)) r = 0 /\ dot (vsub (w 5%nat) (vadd c r)) r = 0) /\
+  (dot (vsub (w 1%nat) (vadd c s)) s = 0 /\ dot (vsub (w 0%nat) (vadd c s)) s = 0) /\
+  (dot (vsub (w 2%nat) (vadd c t)) t = 0 /\ dot (vsub (w 1%nat) (vadd c t)) t = 0) /\
+  vadd (vsub (w 0%nat) c) (vsub (w 5%nat) c) = vscale 2 r /\
+  vadd (vsub (w 1%nat) c) (vsub (w 0%nat) c) = vscale 2 s.
+Proof.
+  destruct c as [[c1 c2] c3], h as [[h1 h2] h3], r as [[r1 r2] r3], m as [[m1 m2] m3].
+  cbv beta iota zeta delta [hexagon_of dot vadd vsub vscale vx vy vz fst snd].
+  intros Rh Mh Rm MM.
+  repeat split; try lra; apply vec_eq; lra.
+Qed.
+
 Section Regular.
   Context (c h r m : rvec).
   Hypothesis Hh : h <> (0, 0, 0).
@@ -301,28 +328,24 @@ Section Regular.
         let v := eval vm_compute in (a mod 6)%nat in change (a mod 6)%nat with v
     end.
 
-  Ltac crush := destruct c as [[c1 c2] c3], h as [[h1 h2] h3], r as [[r1 r2] r3], m as [[m1 m2] m3];
-    unfold dot, det3, cross, vadd, vsub, vscale, vx, vy, vz in *; cbn [fst snd] in *.
-
   Lemma reg_s_nz : s <> (0, 0, 0).
   Proof.
     intros Z. assert (E : dot s s = 0) by (rewrite Z; unfold dot, vx, vy, vz; cbn; ring).
-    assert (F : dot s s = dot r r) by (unfold s; crush; lra).
+    destruct (regular_facts c h r m Rh Mh Rm MM) as (F & _). fold s in F.
     pose proof (dot_self_pos r Hr). lra.
   Qed.
 
   Lemma reg_t_nz : t <> (0, 0, 0).
   Proof.
     intros Z. assert (E : dot t t = 0) by (rewrite Z; unfold dot, vx, vy, vz; cbn; ring).
-    assert (F : dot t t = dot r r) by (unfold t; crush; lra).
+    destruct (regular_facts c h r m Rh Mh Rm MM) as (_ & F & _). fold t in F.
     pose proof (dot_self_pos r Hr). lra.
   Qed.
 
   Lemma reg_flat k : dot (vsub (wv w k) c) h = 0.
   Proof.
-    unfold wv. destruct (mod6_cases k) as (q & Hq & -> & _).
-    unfold w. rewrite hexagon_of_xy.
-    do 6 (destruct q as [|q]; [unfold hex_xy, s; cbn [fst snd]; crush; lra|]). lia.
+    destruct (regular_facts c h r m Rh Mh Rm MM) as (_ & _ & _ & _ & E1 & E2 & _). fold s in E1, E2.
+    unfold wv, w. rewrite hexagon_of_xy, comb_flat, E1, E2. ring.
   Qed.
 
   Theorem regular_lattice_vectors :
@@ -334,15 +357,14 @@ Section Regular.
     { intros k. apply hexagon_of_turn; [lra|].
       pose proof (det3_regular r m h) as E. fold s in E.
       rewrite E. lra. }
-    rewrite (rhp_lattice_vectors c h r s t w 0 1 2 Hl Hh Hr reg_s_nz reg_t_nz Rh).
-    - f_equal. unfold across, wv, w. modc. cbn [hexagon_of].
-      f_equal; [|f_equal]; unfold s; crush; apply vec_eq; lra.
-    - unfold s. crush. lra.
-    - unfold t. crush. lra.
+    destruct (regular_facts c h r m Rh Mh Rm MM) as (_ & _ & Sh & Th & _ & _ & Fa & Fb & Fd & A0 & A1).
+    fold s in Sh, Fa, Fb, Fd, A0, A1. fold t in Th, Fd. fold w in Fa, Fb, Fd, A0, A1.
+    rewrite (rhp_lattice_vectors c h r s t w 0 1 2 Hl Hh Hr reg_s_nz reg_t_nz Rh Sh Th).
+    - unfold across, wv. modc. rewrite A0, A1. reflexivity.
     - intros k. apply hexagon_of_sym.
-    - unfold wv, w. modc. cbn [hexagon_of]. unfold s. crush. split; lra.
-    - unfold wv, w. modc. cbn [hexagon_of]. unfold s. crush. split; lra.
-    - unfold wv, w. modc. cbn [hexagon_of]. unfold s, t. crush. split; lra.
+    - unfold wv. modc. exact Fa.
+    - unfold wv. modc. exact Fb.
+    - unfold wv. modc. exact Fd.
     - exact reg_flat.
     - left. exact Hturn.
   Qed.
